@@ -164,6 +164,31 @@ type RunSpec struct {
 	Dump          bool            `json:"dump,omitempty"` // reference pass: record segment geometry and wire bytes
 	Attack        *Attack         `json:"attack,omitempty"`
 	Hist          *History        `json:"hist,omitempty"`
+	Ref           *RefPeer        `json:"ref,omitempty"`
+}
+
+// RefPeer configures the reference peer (written from docs/protocol.md) that
+// talks to a real endpoint with its own, possibly skewed, clock and with every
+// freedom the document allows.
+type RefPeer struct {
+	Mode           string  `json:"mode"` // "client": reference client vs real server; "server": real client vs reference server
+	Transport      string  `json:"transport"`
+	User           int     `json:"user"`
+	SkewUs         int64   `json:"skewUs"`             // reference clock = bubble clock + skew
+	KeySkewUs      *int64  `json:"keySkewUs,omitempty"` // override for the key-derivation instant
+	TsSkewUs       *int64  `json:"tsSkewUs,omitempty"`  // override for the timestamp instant
+	JumpAfter      int     `json:"jumpAfter,omitempty"` // after this many sent segments the reference clock jumps by JumpUs
+	JumpUs         int64   `json:"jumpUs,omitempty"`
+	Expect         string  `json:"expect"` // accept | refuse | either
+	Writes         []int   `json:"writes"` // application payload sizes sent by the initiating side
+	PiggybackExtra int     `json:"piggybackExtra,omitempty"`
+	Pad1           []int   `json:"pad1,omitempty"` // padding lengths, cycled
+	Pad2           []int   `json:"pad2,omitempty"`
+	LEMode         int     `json:"leMode,omitempty"`
+	LERot          int     `json:"leRot,omitempty"`
+	LEPadBit       int     `json:"lePadBit,omitempty"`
+	MaxChunk       int     `json:"maxChunk,omitempty"` // echo/data segment payload size cap
+	AckOnly        bool    `json:"ackOnly,omitempty"`  // interleave ack-only segments
 }
 
 // History is an operation history against one component under the virtual
